@@ -494,6 +494,7 @@ func init() {
 
 func runProp(r *core.Run) {
 	debug.SetGCPercent(400)
+	runUpserts(r)
 	maxFeat := 2
 	if r.Thorough() {
 		maxFeat = 3
@@ -524,6 +525,9 @@ func runProp(r *core.Run) {
 }
 
 func replay(r *core.Run, w json.RawMessage) {
+	if replayUpsert(r, w) {
+		return
+	}
 	var c caseID
 	if json.Unmarshal(w, &c) != nil {
 		return
